@@ -268,8 +268,10 @@ enum Act {
     ReObsExt,
     /// observe the target returned by the most recent `s`
     ObsSample,
+    /// `RecursiveChallenger::clear` (native: a fresh challenger, as in C05)
+    Clear,
 }
-const ALPHABET: [Act; 5] = [Act::Obs, Act::Sample, Act::ObsExt, Act::SampleExt, Act::Bits3];
+const ALPHABET: [Act; 6] = [Act::Obs, Act::Sample, Act::ObsExt, Act::SampleExt, Act::Bits3, Act::Clear];
 /// Actions that re-use an existing target; only inside histories of length <= the re-observe
 /// depth bound (see `bfs_states`).
 const REUSE: [Act; 3] = [Act::ReObs, Act::ReObsExt, Act::ObsSample];
@@ -282,6 +284,7 @@ impl Act {
             Act::Sample => "s",
             Act::SampleExt => "sx",
             Act::Bits3 => "b3",
+            Act::Clear => "clr",
             Act::ReObs => "ro",
             Act::ReObsExt => "rx",
             Act::ObsSample => "os",
@@ -294,6 +297,7 @@ impl Act {
             "s" => Act::Sample,
             "sx" => Act::SampleExt,
             "b3" => Act::Bits3,
+            "clr" => Act::Clear,
             "ro" => Act::ReObs,
             "rx" => Act::ReObsExt,
             "os" => Act::ObsSample,
@@ -490,6 +494,10 @@ fn replay<B: Cfg>(
                 let t = RecursiveChallenger::<B::BF, B::EF>::sample_ext(&mut cc, &mut b);
                 expose(&mut b, &mut publics, &mut roles, t, exp);
             }
+            Act::Clear => {
+                nat = DuplexChallenger::<B::BF, B::Perm, 16, 8>::new(B::perm());
+                RecursiveChallenger::<B::BF, B::EF>::clear(&mut cc, &mut b);
+            }
             Act::Bits3 => {
                 let exp: usize = nat.sample_bits(3);
                 sample_bits_seen = true;
@@ -503,7 +511,7 @@ fn replay<B: Cfg>(
                 }
             }
         }
-        if nat.sponge_state != before {
+        if nat.sponge_state != before && !matches!(a, Act::Clear) {
             native_perms += 1;
         }
     }
@@ -648,6 +656,7 @@ fn judge<B: Cfg>(
                     ));
                 }
             }
+            Act::Clear => nat = DuplexChallenger::<B::BF, B::Perm, 16, 8>::new(B::perm()),
             Act::Bits3 => {
                 let exp: usize = nat.sample_bits(3);
                 for i in 0..3 {
@@ -1792,7 +1801,7 @@ fn main() {
         "exhaustive": exhaustive,
         "depth_bound": depth,
         "alphabet": ALPHABET.iter().chain(REUSE.iter()).map(|a| a.token()).collect::<Vec<_>>(),
-        "alphabet_legend": "op observe(public base element); xp observe_ext(public extension element); s sample; sx sample_ext; b3 sample_bits(3); target re-use (only inside histories of length <= reuse_depth_bound): ro observe again the target of the most recent op; rx observe_ext again the target of the most recent xp; os observe the target returned by the most recent s; every history is followed by one more s",
+        "alphabet_legend": "op observe(public base element); xp observe_ext(public extension element); s sample; sx sample_ext; b3 sample_bits(3); clr clear (native: a fresh challenger); target re-use (only inside histories of length <= reuse_depth_bound): ro observe again the target of the most recent op; rx observe_ext again the target of the most recent xp; os observe the target returned by the most recent s; every history is followed by one more s",
         "reuse_depth_bound": rdepth,
         "histories_with_target_reuse": plan.iter().filter(|(_, h)| h.iter().any(|a| a.reuse())).count(),
         "configurations": per_cfg,
